@@ -4,6 +4,7 @@ import (
 	"bufio"
 	"encoding/json"
 	"fmt"
+	"math/rand"
 	"os"
 	"os/exec"
 	"path/filepath"
@@ -239,6 +240,14 @@ func runC11(cs CaseSpec) *CaseResult {
 		if crashed {
 			crashedAt = at
 			break
+		}
+		if cs.I("refusals", 0) == 1 && s%5 == 3 {
+			// a relaying peer hands the victim an event it must refuse
+			crashed, at = guardedStep(func() { offerRefusedEvent(nw, v, rng) })
+			if crashed {
+				crashedAt = at
+				break
+			}
 		}
 		if clean && s == maxSteps/2 {
 			crashedAt = "clean shutdown"
@@ -584,8 +593,8 @@ func readEvLog(path string) (att, comp map[string]bool) {
 func init() {
 	register(&PropDef{
 		ID: "C11", Level: "fault_enumeration", Engine: "nodesim+crash",
-		Rule: "one case = one crash point: (a) in-process: a nodesim network with Badger stores in which the victim's store panics at its k-th write call (SetEvent/SetRound/SetBlock/SetFrame/AddConsensusEvent; before or after the write reaches the database; k spread over the whole history; plus clean shutdowns), the database handle is released, the victim is rebuilt from its database with bootstrap and the run continues; (b) SIGKILL: a child process running an all-Badger network kills itself with SIGKILL at the victim's k-th store call without closing anything; the parent reopens every database, bootstraps and continues. Oracle: blocks re-delivered == blocks the application had durably logged, completed-writes subset of known events subset of attempted writes, head/seq = latest stored own event, no (creator,index) used twice afterwards, agreement with the rest of the network; non-trivial: the crash point was reached and the node recovered; distinct by (history, crash point)",
-		Assumptions: []string{"process kill, not machine crash: data handed to the OS survives (SyncWrites=false is the code's own choice)", "in-process crash points release the Badger handle with Close (same data as a kill; real kills are covered by the SIGKILL tier)", "stores reset by fast-sync are excluded (bootstrap from 0 only)"},
+		Rule:          "one case = one crash point: (a) in-process: a nodesim network with Badger stores in which the victim's store panics at its k-th write call (SetEvent/SetRound/SetBlock/SetFrame/AddConsensusEvent; before or after the write reaches the database; k spread over the whole history; plus clean shutdowns), the database handle is released, the victim is rebuilt from its database with bootstrap and the run continues; (b) SIGKILL: a child process running an all-Badger network kills itself with SIGKILL at the victim's k-th store call without closing anything; the parent reopens every database, bootstraps and continues. Oracle: blocks re-delivered == blocks the application had durably logged, completed-writes subset of known events subset of attempted writes, head/seq = latest stored own event, no (creator,index) used twice afterwards, agreement with the rest of the network; non-trivial: the crash point was reached and the node recovered; distinct by (history, crash point)",
+		Assumptions:   []string{"process kill, not machine crash: data handed to the OS survives (SyncWrites=false is the code's own choice)", "in-process crash points release the Badger handle with Close (same data as a kill; real kills are covered by the SIGKILL tier)", "stores reset by fast-sync are excluded (bootstrap from 0 only)"},
 		MinNontrivial: 10,
 		Cases: func(tier string, seed int64) []CaseSpec {
 			count, kills := 72, 8
@@ -610,6 +619,10 @@ func init() {
 				if i%4 == 1 {
 					c.P["second"] = 1
 				}
+				if i%3 == 2 {
+					// events that the victim refuses are offered to it before the crash
+					c.P["refusals"] = 1
+				}
 				cs = append(cs, c)
 			}
 			for i := 0; i < kills; i++ {
@@ -620,4 +633,72 @@ func init() {
 		Run:            runC11,
 		PerCaseTimeout: 10 * time.Minute,
 	})
+}
+
+// offerRefusedEvent hands the victim, through its real sync entry point, an
+// event of another node that the victim does not know yet and whose parents it
+// knows, altered so that it must be refused: a signature that no longer
+// verifies (signature, payload or timestamp changed by the relay), a wrong
+// index, or an unknown other-parent. Nothing of it may be left behind.
+func offerRefusedEvent(nw *Network, v *SimNode, rng *rand.Rand) {
+	if v.Node == nil || !v.Up || !v.babbling() {
+		return
+	}
+	others := []*SimNode{}
+	for _, o := range nw.babblers() {
+		if o != v {
+			others = append(others, o)
+		}
+	}
+	if len(others) == 0 {
+		return
+	}
+	o := others[rng.Intn(len(others))]
+	diff, err := o.Core.EventDiff(v.Core.KnownEvents())
+	if err != nil || len(diff) == 0 {
+		return
+	}
+	wire, err := o.Core.ToWire(diff[:1])
+	if err != nil || len(wire) != 1 {
+		return
+	}
+	var we hg.WireEvent
+	if wireCopy(&wire[0], &we) != nil {
+		return
+	}
+	class := rng.Intn(5)
+	switch class {
+	case 0: // signature altered, still well-formed
+		b := []byte(we.Signature)
+		for i := len(b) - 1; i >= 0; i-- {
+			if b[i] >= '0' && b[i] <= '8' {
+				b[i]++
+				break
+			}
+			if b[i] == '9' {
+				b[i] = '0'
+				break
+			}
+		}
+		we.Signature = string(b)
+	case 1: // payload altered
+		we.Body.Transactions = append(we.Body.Transactions, []byte("added by the relay"))
+	case 2: // timestamp altered
+		we.Body.Timestamp++
+	case 3: // wrong index
+		we.Body.Index += 1 + rng.Intn(3)
+	case 4: // other-parent unknown to the victim
+		we.Body.OtherParentIndex += 1000
+	}
+	before := v.Core.KnownEvents()
+	err = v.Core.Sync(o.ID, []hg.WireEvent{we})
+	nw.Res.count(fmt.Sprintf("refusable_events_offered_class_%d", class), 1)
+	if err != nil {
+		nw.Res.count("refusable_events_refused", 1)
+	} else {
+		after := v.Core.KnownEvents()
+		if fmt.Sprint(before) != fmt.Sprint(after) {
+			nw.Res.count("refusable_events_accepted", 1)
+		}
+	}
 }
